@@ -199,6 +199,88 @@ macro_rules! timed_runner {
         r
       }
 
+      /// (timedchain OP (pre U...) (post U...) (labels L...)): a scheduler-using operator with a chain of
+      /// single-input operators in front of it and another one behind it, over a subject
+      pub fn run_chain(body: &[Sexp]) -> String {
+        use crate::chain::$chain::{apply_uops, Obs};
+        install_timer();
+        NOW.with(|n| n.set(0));
+        TIMER_REQS.with(|r| r.borrow_mut().clear());
+        SPAWNED.with(|q| q.borrow_mut().clear());
+        let log: TLog = TLog::default();
+        let fin = Arc::new(AtomicBool::new(false));
+        let probe = TProbe { log: log.clone(), fin: fin.clone() };
+        let src: Src = Src::default();
+        let sch = VerifScheduler;
+        let op = &body[0];
+        let a = op.args();
+        let input: Obs = apply_uops(src.clone().box_it(), body[1].args());
+        let timed: Obs = match op.head() {
+          "delay" => input.$delay(ms(a[0].int() as u64), sch.clone()).box_it(),
+          "observe_on" => input.$observe_on(sch.clone()).box_it(),
+          "delay_subscription" => input.delay_subscription(ms(a[0].int() as u64), sch.clone()).box_it(),
+          "subscribe_on" => input.subscribe_on(sch.clone()).box_it(),
+          "debounce" => input.debounce(ms(a[0].int() as u64), sch.clone()).box_it(),
+          "throttle" => {
+            // (the throttle operator is not Clone: `defer`, which adds no observer of its own, makes the stage cloneable)
+            let (w, e, s2) = (ms(a[0].int() as u64), a[1].atom().to_string(), sch.clone());
+            observable::defer(move || {
+              let edge = match e.as_str() {
+                "leading" => ThrottleEdge::leading(),
+                "tailing" => ThrottleEdge::tailing(),
+                _ => ThrottleEdge::all(),
+              };
+              input.clone().throttle_time(w, edge, s2.clone())
+            })
+            .box_it()
+          }
+          "buffer_with_time" => input.buffer_with_time(ms(a[0].int() as u64), sch.clone()).map(Val::L).box_it(),
+          "buffer_with_count_and_time" => {
+            input.buffer_with_count_and_time(a[0].usize(), ms(a[1].int() as u64), sch.clone()).map(Val::L).box_it()
+          }
+          h => panic!("bad timedchain op {h}"),
+        };
+        let mut sub = Some(apply_uops(timed, body[2].args()).actual_subscribe(probe));
+        let mut tasks: Vec<Option<SpawnedTask>> = vec![];
+        let collect = |tasks: &mut Vec<Option<SpawnedTask>>| {
+          SPAWNED.with(|q| {
+            for t in q.borrow_mut().drain(..) {
+              tasks.push(Some(t));
+            }
+          })
+        };
+        collect(&mut tasks);
+        let waker = noop_waker();
+        for (j, l) in body[3].args().iter().enumerate() {
+          log.lock().unwrap().push(T::Mark(j));
+          let la = l.args();
+          match l.head() {
+            "src" => crate::chain::$chain::emit(&src, Ev::parse(&la[0])),
+            "run" => {
+              if let Some(slot) = tasks.get_mut(la[0].usize()) {
+                if let Some(f) = slot.as_mut() {
+                  let mut cx = Context::from_waker(&waker);
+                  if f.as_mut().poll(&mut cx).is_ready() {
+                    *slot = None;
+                  }
+                }
+              }
+            }
+            "adv" => NOW.with(|n| n.set(n.get() + (la[0].int() as u128) * MS)),
+            "unsub" => {
+              if let Some(u) = sub.take() {
+                u.unsubscribe();
+              }
+            }
+            h => panic!("bad timedchain label {h}"),
+          }
+          collect(&mut tasks);
+        }
+        let r = show(&log.lock().unwrap());
+        std::mem::forget(sub);
+        r
+      }
+
       /// (timed OP (labels L...)) ; OP as in the model's `top`
       fn run_once(body: &[Sexp]) -> String {
         install_timer();
@@ -363,6 +445,15 @@ pub fn run_timed(body: &[Sexp]) -> String {
     "local" => local::run(&body[1..]),
     "threads" => threads::run(&body[1..]),
     f => panic!("bad timed form {f}"),
+  }
+}
+
+/// (timedchain FORM OP (pre U...) (post U...) (labels ...))
+pub fn run_timedchain(body: &[Sexp]) -> String {
+  match body[0].atom() {
+    "local" => local::run_chain(&body[1..]),
+    "threads" => threads::run_chain(&body[1..]),
+    f => panic!("bad timedchain form {f}"),
   }
 }
 
